@@ -154,7 +154,12 @@ def save_replay(pid, n, obj):
     return p
 
 
+FIXTURE_DIR = 'crates/lib/mimium-test/tests/mmm'
+
+
 def corpus_files(groups=None):
+    """groups: op/st/ct/cl = /verif/corpus/<group>_*.mmm ; fx = the repository's own test fixtures (those the compiler accepts
+    and the engines support are analysed, the rest is reported as skipped)"""
     out = []
     cdir = os.path.join(VERIF, 'corpus')
     for fn in sorted(os.listdir(cdir)):
@@ -162,4 +167,9 @@ def corpus_files(groups=None):
             g = fn.split('_')[0]
             if groups is None or g in groups:
                 out.append(os.path.join(cdir, fn))
+    if groups is not None and 'fx' in groups:
+        fdir = os.path.join(REPO, FIXTURE_DIR)
+        for fn in sorted(os.listdir(fdir)):
+            if fn.endswith('.mmm') and not fn.startswith(('scheduler', 'module_', 'multistage', 'mininotation', 'lift_', 'probe', 'slider', 'error_', 'fail_', 'many_errors', 'imported_', 'macro_', 'auto_spread')):
+                out.append(os.path.join(fdir, fn))
     return out
